@@ -72,8 +72,37 @@ func (l *LeafDesc) Clone() *LeafDesc {
 	return &c
 }
 
+// values of unusual but perfectly legal Go types (all comparable, so that a rebuilt copy equals the first)
+type NamedInt int
+type NamedBool bool
+type NamedStr string
+type NamedFloat float64
+type PtrPair [2]*int
+
+var ptrPairTarget = 7
+
 func (l *LeafDesc) Build() any {
 	switch l.Tag {
+	case "complex128":
+		return complex(l.F, float64(l.I))
+	case "complex64":
+		return complex64(complex(l.F, float64(l.I)))
+	case "uintptr":
+		return uintptr(l.I)
+	case "named-int":
+		return NamedInt(l.I)
+	case "named-bool":
+		return NamedBool(l.B)
+	case "named-str":
+		return NamedStr(l.S)
+	case "named-float":
+		return NamedFloat(l.F)
+	case "rune":
+		return rune(l.I)
+	case "ptr-pair":
+		return PtrPair{&ptrPairTarget, nil} // an array of pointers (one live and shared, one nil)
+	case "struct-empty":
+		return struct{}{}
 	case "str":
 		return l.S
 	case "int":
